@@ -126,3 +126,37 @@ func opPoolRun(t Task) Result {
 	}
 	return Result{"obs": obs}
 }
+
+func init() { register("pool_long", opPoolLong) }
+
+// pool_long: count Get calls on a pool of the given block size; a unique value is written through every object when it is
+// handed out, and at the end every object must be distinct from all others and still hold its value (PoolAbs.tla: Fresh,
+// NonInterference, for histories far beyond what TLC enumerates).  Returns the first offending request, if any.
+func opPoolLong(t Task) Result {
+	size := tInt(t, "size", 1024)
+	count := tInt(t, "count", 40000)
+	var d poolDrv
+	if tStr(t, "kind") == "position" {
+		d = &posDrv{p: position.NewPool(size)}
+	} else {
+		d = &tokDrv{p: token.NewPool(size)}
+	}
+	seen := make(map[uintptr]int, count)
+	for i := 0; i < count; i++ {
+		addr, isNil, _, _ := d.get()
+		if isNil {
+			return Result{"bad": "nil-object", "at": i}
+		}
+		if j, ok := seen[addr]; ok {
+			return Result{"bad": "object-returned-twice", "at": i, "first": j}
+		}
+		seen[addr] = i
+		d.write(i, i+1)
+	}
+	for i := 0; i < count; i++ {
+		if v := d.read(i); v != i+1 {
+			return Result{"bad": "read-differs-from-last-write", "at": i, "got": v}
+		}
+	}
+	return Result{"ok": true}
+}
